@@ -142,7 +142,8 @@ impl<'a, R: Read> Lexer<Scanner<'a, R>> {
                     let literal = parse_literal(&mut self.scanner)?;
 
                     if self.scanner.cur == b'(' {
-                        if literal == "C" {
+                        // `C("...")` is an XStr of type `C`, `C(lat,long)` a Coord
+                        if literal == "C" && self.scanner.safe_peek() != Some(b'"') {
                             let coord = parse_coord_body(&mut self.scanner)?;
                             self.cur = LexerToken::make_value(Value::Coord(coord));
                         } else {
